@@ -10,18 +10,24 @@ ENGINE = "c12_serve"
 RULE = ("header cases = every scenario of kind hdr of MCServe (product of well/ill-formed command, path, host and extra "
         "pieces x length-field classes), each fed as real bytes to the real pktline::git_request; for a sample of the "
         "accepted ones the real upload_pack step is run on in-memory streams against a real storage; cells = (default "
-        "policy x policy row x repository present/visibility class x requester role) realised as one Handle::fetch between "
-        "real nodes over loopback; plus recorded random headers and a recorded random sequence of policy changes and "
+        "policy x policy row x repository absent/visibility class/identity document unreadable x requester role) realised as one Handle::fetch between "
+        "real nodes over loopback; plus recorded random headers and a recorded random sequence of policy changes, identity-head moves and "
         "fetches, validated by TLC (TraceServe). non-trivial = headers the real parser accepted + serve-step runs + cells")
 
-# the cells around the decision boundary (quick tier): (default, policy row, present, private, allow list, requester)
-QUICK = {("block", "allow", True, False, (), "O"), ("block", "allow", True, True, (), "O"), ("block", "allow", True, True, (), "D"),
-         ("block", "allow", True, True, ("A",), "A"), ("block", "allow", True, True, ("A",), "O"),
-         ("block", "block", True, False, (), "D"), ("block", "none", True, False, (), "O"),
-         ("block", "none", True, True, ("A",), "A"), ("block", "allow", False, False, (), "O"),
-         ("allow", "none", True, False, (), "O"), ("allow", "none", True, True, (), "O"), ("allow", "block", True, False, (), "O")}
+# the cells around the decision boundary (quick tier):
+# (default, policy row, present, identity document loads, private, allow list, requester)
+QUICK = {("block", "allow", True, True, False, (), "O"), ("block", "allow", True, True, True, (), "O"),
+         ("block", "allow", True, True, True, (), "D"),
+         ("block", "allow", True, True, True, ("A",), "A"), ("block", "allow", True, True, True, ("A",), "O"),
+         ("block", "block", True, True, False, (), "D"), ("block", "none", True, True, False, (), "O"),
+         ("block", "none", True, True, True, ("A",), "A"), ("block", "allow", False, False, False, (), "O"),
+         ("allow", "none", True, True, False, (), "O"), ("allow", "none", True, True, True, (), "O"),
+         ("allow", "block", True, True, False, (), "O"),
+         # seeded repositories whose identity document cannot be read on the responder: nobody can be shown to be allowed
+         ("block", "allow", True, False, True, (), "O"), ("block", "allow", True, False, True, (), "D"),
+         ("block", "allow", True, False, True, ("A",), "A"), ("allow", "none", True, False, False, (), "O")}
 
-DEV = [("orig-nobounds", "C13_NoCrash"), ("skip-visibility", "C12_ServeOnlyIfAllowed"),
+DEV = [("orig-nobounds", "C13_NoCrash"), ("fail-open-doc", "C12_ServeOnlyIfAllowed"), ("skip-visibility", "C12_ServeOnlyIfAllowed"),
        ("serve-other", "C12_ServedIsAuthorised"), ("early-data", "C12_RefusalBeforeData")]
 
 LEN_CLASSES = {"exact", "upper", "plus", "long", "short", "eq4", "nonhex", "nonutf8", "noprefix",
@@ -29,7 +35,7 @@ LEN_CLASSES = {"exact", "upper", "plus", "long", "short", "eq4", "nonhex", "nonu
 
 
 def cell_key(c):
-    return (c["def"], c["pol"]["R1"], c["present"]["R1"], c["private"]["R1"], tuple(c["allow"]["R1"]), c["n"])
+    return (c["def"], c["pol"]["R1"], c["present"]["R1"], c["docok"]["R1"], c["private"]["R1"], tuple(c["allow"]["R1"]), c["n"])
 
 
 def len_group(l):
@@ -58,7 +64,7 @@ def model_run(ctx, thorough):
     if not any(o["ok"] for c in hdr for o in c["outs"]) or not any(not o["ok"] for c in hdr for o in c["outs"]):
         raise vlib.ToolError("vacuous case set: headers all accepted or all rejected")
     decs = {d for c in cells for d in c["dec"]}
-    if not {"served", "refused:policy", "refused:visibility", "refused:storage"} <= decs:
+    if not {"served", "refused:policy", "refused:visibility", "refused:storage", "refused:identity"} <= decs:
         raise vlib.ToolError(f"vacuous decision table: {decs}")
     return hdr, cells
 
@@ -107,8 +113,8 @@ def run(ctx):
         if dyn.violated:
             out["dyn_violated"] = (dyn.violated, dyn.error_trace[:80])
         else:
-            ctx.require_coverage(dyn, ["OpenM", "ReadHeaderM", "CheckPolicyM", "LoadRepoM", "CheckVisibleM", "StartUploadM", "SendDataM", "FinishM", "CloseM", "SetPolicyM"])
-        for variant, inv in (DEV if thorough else DEV[:2]):
+            ctx.require_coverage(dyn, ["OpenM", "ReadHeaderM", "CheckPolicyM", "LoadRepoM", "LoadDocM", "CheckVisibleM", "StartUploadM", "SendDataM", "FinishM", "CloseM", "SetPolicyM", "SetDocM"])
+        for variant, inv in (DEV if thorough else DEV[:3]):
             d = ctx.tlc("MCServe", f"MCServe_dev_{variant}.cfg", workers=2, timeout=600, coverage=False, count=False,
                         label=f"sanity: variant {variant} must violate {inv}")
             if d.violated != inv:
@@ -179,17 +185,19 @@ def run(ctx):
             continue
         n_cells += 1
         case = {"k": "cell", "n": r["n"], "def": r["def"], "pol": {"R1": r["pol"], "R2": "allow"},
-                "present": {"R1": r["present"], "R2": True}, "private": {"R1": r["private"], "R2": False},
+                "present": {"R1": r["present"], "R2": True}, "docok": {"R1": r["docok"], "R2": True}, "private": {"R1": r["private"], "R2": False},
                 "allow": {"R1": r["allow"], "R2": []}, "dec": r["expected"]}
         cls = r["class"]
         if cls in ("served-although-not-allowed", "repository-present-after-refusal"):
             vis = "absent" if not r["present"] else ("private allow=" + "+".join(r["allow"]) if r["private"] else "public")
+            if r["present"] and not r["docok"]:
+                vis += " identity-document-unreadable"
             ctx.violation(f"cell {cls}: default={r['def']} policy={r['pol']} repo={vis} requester={r['n']}",
                           f"model: {r['expected']}; real responder emitted {r['events']} upload-pack events "
                           f"({r['transmitted']} pack bytes), requester ok={r['requester_ok']}, has repository={r['has']}",
                           {"case": case, "verdict": r})
         elif cls in ("refused-although-allowed", "served-but-requester-failed"):
-            cell_drift.append({k: r[k] for k in ("def", "pol", "present", "private", "allow", "n", "class", "responder_result", "requester_reason")})
+            cell_drift.append({k: r[k] for k in ("def", "pol", "present", "docok", "private", "allow", "n", "class", "responder_result", "requester_reason")})
     if es is None:
         raise vlib.ToolError("e2e engine wrote no summary")
 
@@ -223,7 +231,7 @@ def run(ctx):
         if c["k"] == "hdr":
             return {k: c[k] for k in ("k", "len", "body", "outs", "dec")}
         return {"k": "cell", "default": c["def"], "policy": c["pol"]["R1"], "present": c["present"]["R1"],
-                "private": c["private"]["R1"], "allow": c["allow"]["R1"], "requester": c["n"], "dec": c["dec"]}
+                "doc_loads": c["docok"]["R1"], "private": c["private"]["R1"], "allow": c["allow"]["R1"], "requester": c["n"], "dec": c["dec"]}
     ctx.cov["samples"] += [brief(c) for c in [hdr[len(hdr) // 3], hdr[-1]] + sel[:3]] + recorded[-3:]
     ctx.cov["exhaustive"] = thorough and not ctx.violations
     ctx.cov["header_cases"] = hs
